@@ -151,6 +151,7 @@ def _nth_replace(text, old, new, nth):
 
 
 MUST_FIRE = [
+    ('reported scale built from the nominal step instead of the grid', [(MO, "                m.logd = np.log10(m.distances.to(u.kpc).value)\n                if remove_resolved:\n                    extended[:, :, ifilt] = apertures_au[np.newaxis,:] < conv.find_radius_sigma(0.5)[:, np.newaxis]", "                m.logd = np.log10(distance_range_kpc[0]) + modpar['logd_step'] * np.arange(m.n_distances)\n                if remove_resolved:\n                    extended[:, :, ifilt] = apertures_au[np.newaxis,:] < conv.find_radius_sigma(0.5)[:, np.newaxis]")]),
     ('3-D: argmin over models', [(MO, "best = np.argmin(ch_best, axis=1)", "best = np.argmin(ch_best, axis=0)")]),
     ('3-D: upper clamp dropped', [(MO, "            av_best[av_best > av_max] = av_max\n", "")]),
     ('3-D: lower clamp to av_max', [(MO, "av_best[av_best < av_min] = av_min", "av_best[av_best < av_min] = av_max")]),
@@ -162,6 +163,7 @@ MUST_FIRE = [
     ('OS: sums over distance axis', [(FR, "axis=data.ndim - 1) /", "axis=1) /")]),
 ]
 MUST_SILENT = [
+    ('reported scale as an even grid in the exponent between the ends of the range', [(MO, "                m.logd = np.log10(m.distances.to(u.kpc).value)\n                if remove_resolved:\n                    extended[:, :, ifilt] = apertures_au[np.newaxis,:] < conv.find_radius_sigma(0.5)[:, np.newaxis]", "                m.logd = np.linspace(np.log10(distance_range_kpc[0]), np.log10(distance_range_kpc[1]), m.n_distances)\n                if remove_resolved:\n                    extended[:, :, ifilt] = apertures_au[np.newaxis,:] < conv.find_radius_sigma(0.5)[:, np.newaxis]")]),
     ('3-D: np.clip', [(MO, "            av_best[av_best < av_min] = av_min\n            av_best[av_best > av_max] = av_max\n", "            av_best = np.clip(av_best, av_min, av_max)\n")]),
     ('3-D: clamp order', [(MO, "            av_best[av_best < av_min] = av_min\n            av_best[av_best > av_max] = av_max\n", "            av_best[av_best > av_max] = av_max\n            av_best[av_best < av_min] = av_min\n")]),
     ('3-D: gather via temporaries', [(MO, "ch_best = ch_best[np.arange(self.n_models), best]", "rows = np.arange(self.n_models)\n            ch_best = ch_best[rows, best]")]),
